@@ -4,7 +4,7 @@ import vf
 _s = importlib.util.spec_from_file_location("ro", os.path.join(os.path.dirname(__file__), "ribout_common.py"))
 ro = importlib.util.module_from_spec(_s); _s.loader.exec_module(ro)
 
-ALLN = {"e1", "e2", "e3", "i1", "i2", "ne", "na", "ot", "bk", "st"}
+ALLN = {"e1", "e2", "e3", "i1", "i2", "ne", "na", "nn", "nr", "ot", "bk", "st"}
 
 
 def run(ctx):
@@ -15,7 +15,7 @@ def run(ctx):
     designs = [("design all sessions x all paths", dict(base, MaxDepth=4), ro.PFX1)]
     runs = [("gen every (path, session) pair and every pair of paths", base, ro.PFX1)]
     sims = [("sim", dict(base, Pols={"accept", "setmed", "prep"}, MaxPaths=4), ro.PFX2, 2000 if big else 300, 10)]
-    ctx.rule = ("every (Loc-RIB path, target session) combination: 10 paths (eBGP/iBGP-learned, reflected, NO_EXPORT, NO_ADVERTISE, "
+    ctx.rule = ("every (Loc-RIB path, target session) combination: 12 paths (eBGP/iBGP-learned, reflected, NO_EXPORT, NO_ADVERTISE, both in either order, "
                 "OTC, learned from the target peer, static) x 11 target sessions (eBGP, RS-client, iBGP, RR-client, add-path, 5 remote "
                 "roles), alone and in every ordered pair, plus random histories; TLC checks the RFC constraints as invariants on every "
                 "reachable Adj-RIB-Out (never NO_ADVERTISE, never NO_EXPORT to eBGP, never back to the source peer, no iBGP->non-client, "
